@@ -134,3 +134,88 @@ func Forge(kind string, a, b, c *keys.Identity, data string, seqno uint64, rng *
 func SameSigned(x, y *signaling_rpc.SessionMsg) bool {
 	return x.GetSignedMsg() != nil && y.GetSignedMsg() != nil && x.GetSignedMsg().EqualVT(y.GetSignedMsg())
 }
+
+// DeriveKinds lists the HISTORY-dependent forgeries: messages derived from a
+// message `h` that the verifier has already accepted (an honest delivery of
+// A), optionally combined with a second accepted message `h2`. None of them is
+// an honest delivery: each differs from every honest message in the payload,
+// the claimed sender, the hash type or the signature bytes. (A copy of h that
+// differs only in the unauthenticated pub_key field or in the outer seqno
+// would still verify and carry A's payload; those are not forgeries and are
+// not generated here.)
+var DeriveKinds = []string{
+	"sig-new-data", "sig-flip-data", "sig-append-data", "sig-trunc-data",
+	"sig-hash-sha256", "sig-hash-sha1", "sig-hash-sha256-new-data",
+	"sig-pubkeyC-new-data", "sig-pubkeyA-new-data",
+	"data-with-older-sig", "older-data-with-sig", "data-resigned-by-C", "data-resigned-other-ctx",
+	"sig-data-reattributed-C", "sig-data-reattributed-self", "sig-extended", "sig-new-data-nil-hash",
+}
+
+// Derive builds a history-dependent forgery of kind from the accepted honest
+// message h (sender A) and a second accepted honest message h2 of A (h2 may
+// equal h when the history holds only one). fresh is a payload that was never
+// delivered honestly. The outer seqno is given by the caller.
+func Derive(kind string, h, h2 *signaling_rpc.SessionMsg, a, b, c *keys.Identity, fresh string, seqno uint64, rng *rand.Rand) *signaling_rpc.SessionMsg {
+	m := h.CloneVT()
+	m.Seqno = seqno
+	sm := m.SignedMsg
+	switch kind {
+	case "sig-new-data":
+		sm.Data = []byte(fresh)
+	case "sig-flip-data":
+		sm.Data = flipBit(sm.Data, rng)
+	case "sig-append-data":
+		sm.Data = append(sm.Data, byte('a'+rng.IntN(26)))
+	case "sig-trunc-data":
+		sm.Data = sm.Data[:len(sm.Data)-1-rng.IntN(len(sm.Data)/2)]
+	case "sig-hash-sha256":
+		sm.Signature.HashType = hash.HashType_HashType_SHA256
+	case "sig-hash-sha1":
+		sm.Signature.HashType = hash.HashType_HashType_SHA1
+	case "sig-hash-sha256-new-data":
+		sm.Signature.HashType = hash.HashType_HashType_SHA256
+		sm.Data = []byte(fresh)
+	case "sig-pubkeyC-new-data", "sig-pubkeyA-new-data":
+		who := c
+		if kind == "sig-pubkeyA-new-data" {
+			who = a
+		}
+		s2, err := peer.NewSignature(SignalingContext, who.Priv, hash.HashType_HashType_BLAKE3, []byte(fresh), true)
+		if err != nil {
+			panic(err)
+		}
+		sm.Signature.PubKey = s2.PubKey
+		sm.Data = []byte(fresh)
+	case "data-with-older-sig":
+		// payload of h under the signature of the other accepted message
+		if h2 != h {
+			sm.Signature = h2.SignedMsg.Signature.CloneVT()
+		} else {
+			sm.Signature = Honest(a, fresh, seqno).SignedMsg.Signature
+		}
+	case "older-data-with-sig":
+		if h2 != h {
+			sm.Data = append([]byte(nil), h2.SignedMsg.Data...)
+		} else {
+			sm.Data = []byte(fresh)
+		}
+	case "data-resigned-by-C":
+		x := signedUnder(SignalingContext, c, hash.HashType_HashType_BLAKE3, string(sm.Data), seqno)
+		sm.Signature = x.SignedMsg.Signature
+	case "data-resigned-other-ctx":
+		x := signedUnder(PubsubContext+"chan", a, hash.HashType_HashType_BLAKE3, string(sm.Data), seqno)
+		sm.Signature = x.SignedMsg.Signature
+	case "sig-data-reattributed-C":
+		sm.FromPeerId = c.String()
+	case "sig-data-reattributed-self":
+		sm.FromPeerId = b.String()
+	case "sig-extended":
+		sm.Signature.SigData = append(sm.Signature.SigData, byte(rng.IntN(256)))
+	case "sig-new-data-nil-hash":
+		sm.Signature.HashType = hash.HashType_HashType_UNKNOWN
+		sm.Data = []byte(fresh)
+	default:
+		panic(fmt.Sprintf("unknown derive kind %q", kind))
+	}
+	return m
+}
